@@ -27,12 +27,14 @@ class SemEnv:
         self.fullcfg = full
         self.ver = full["arch_version"]
 
-    def install(self, word, row, mode, regvals, nzcvq=0, ge=0, it=0, addr=CODE, extra=None, cpsr_or=0):
+    def install(self, word, row, mode, regvals, nzcvq=0, ge=0, it=0, addr=CODE, extra=None, cpsr_or=0, aif=None):
         """regvals: {n: value} for the current mode's view.  Returns the pre-state regs tuple as installed."""
         regs = list(self.base[0])
         ix = self.index
         thumb = row.iset != A32
         cpsr = (regs[ix["cpsr"]] & 0x000001C0) | mode | (nzcvq << 27) | (ge << 16) | cpsr_or
+        if aif is not None:
+            cpsr = (cpsr & ~0x1C0) | (aif << 6)        # A/I/F mask background (default: all masked)
         if thumb:
             cpsr |= 0x20 | ((it & 3) << 25) | ((it >> 2) << 10)
         regs[ix["cpsr"]] = cpsr
@@ -47,11 +49,11 @@ class SemEnv:
         return tuple(regs)
 
     def run(self, word, row, fields, mode, regvals, nzcvq=0, ge=0, it=0, addr=CODE, extra=None, mempatch=None, cpsr_or=0,
-            model_hook=None):
+            model_hook=None, aif=None):
         """Executes one case.  Returns (diffs, outcome, info): diffs = [(loc, model, impl)], or None if the model
         classes the instance UNPREDICTABLE."""
         plan = self.plan
-        pre_regs = self.install(word, row, mode, regvals, nzcvq, ge, it, addr, extra, cpsr_or)
+        pre_regs = self.install(word, row, mode, regvals, nzcvq, ge, it, addr, extra, cpsr_or, aif)
         if mempatch:
             for a, data in mempatch:
                 machine.put(self.cpu, a, data)
